@@ -2,6 +2,8 @@ import IceProofs.NotifierFuture
 import IceProofs.NotifierTrace
 import IceProofs.GatherCycleFuture
 import IceSpec.C11
+import IceProofs.C11View
+import IceProofs.C11ForcedView
 import IceTie.Order
 /-!
 # C11 — callbacks are delivered in order, one at a time, exactly once; the nil candidate
@@ -130,6 +132,39 @@ example : trace init 0 [.enqueue 1, .drainLock 0, .callHandler 0, .enqueue 2, .c
 /-- … and the monitor is not trivially satisfied: the same trace with the two deliveries swapped is rejected -/
 example : IceSpec.C11.monitorStream [.enqCall 0 1, .enqRet 0, .enqCall 1 2, .enqRet 1, .enter 2, .exit 2, .enter 1, .exit 1]
     ≠ none := by decide
+
+open IceSpec.C11 IceSpec.C11.View in
+/-- **View round trip (history tokens).** Every typed event of a notifier history and every typed event
+of a gathering history is read back from its printed token by the reader the driver uses
+(`IceSpec/C11View.lean`; no well-formedness hypothesis: all fields are numbers and flags); hence the
+string monitors on printed histories are the typed monitors. -/
+theorem C11_view_roundtrip :
+    (∀ e : HEv, parseTok (printTok e) = some e) ∧ (∀ e : GEv, parseGTok (printGTok e) = some e) ∧
+    (∀ evs : List HEv, monitorToks (evs.map printTok) = monitorStream evs) ∧
+    (∀ (needCand : Bool) (evs : List GEv), monitorGToks needCand (evs.map printGTok) = monitorGather needCand evs) :=
+  ⟨IceProofs.C11View.parseTok_printTok, IceProofs.C11View.parseGTok_printGTok,
+   IceProofs.C11View.monitorToks_print, IceProofs.C11View.monitorGToks_print⟩
+
+open IceSpec.C11 IceSpec.C11.View in
+-- non-vacuity: the printed tokens are the protocol's tokens
+example : [HEv.enqCall 0 1, .enqRet 0, .enter 1, .closeCall 1 true, .exit 1, .closeRet 1, .quiet].map printTok
+    = ["E0:1", "R0", "I1", "C1:g", "O1", "D1", "Q"] := by decide
+open IceSpec.C11 IceSpec.C11.View in
+example : [GEv.gather 0, .state 1 true, .cand 2, .nil, .restart 3, .close].map printGTok = ["G0", "P1", "c2", "n", "R3", "X"] := by decide
+
+open IceSpec.C11.View in
+/-- **Model ⊆ STRING monitor.** The printed trace of EVERY schedule of the notifier model is accepted by
+`monitorToks`, the monitor the driver runs on the tokens recorded from the real code. -/
+theorem C11_model_passes_string_monitor (as : List Action) (s : State) (h : run init as = some s)
+    (hn : (enqueued as).Nodup) : monitorToks ((trace init 0 as).map printTok) = none := by
+  rw [IceProofs.C11View.monitorToks_print]
+  exact C11_model_traces_pass_monitor as s h hn
+
+open IceSpec.C11.View in
+-- non-vacuity: a schedule satisfying the hypotheses, with its printed trace
+example : run init [.enqueue 1, .drainLock 0, .callHandler 0, .handlerReturn 0] ≠ none ∧
+    (trace init 0 [.enqueue 1, .drainLock 0, .callHandler 0, .handlerReturn 0]).map printTok = ["E0:1", "R0", "I1", "O1"] := by
+  decide
 
 end Notifier
 
@@ -323,5 +358,19 @@ theorem C11_code_close_notifiers (graceful : Bool) :
   ⟨IceTie.Order.agentClose_tie graceful, IceTie.Order.agentClose_each_once graceful⟩
 
 example : (IceGen.agent_close true).1.length = 4 := by decide
+
+open IceSpec.C11.Forced IceSpec.C11.Forced.View in
+/-- **View round trip (`gatherforce` observations).** Every typed event is read back from its printed
+token, and the string monitor on every printed non-empty observation (tokens joined by single spaces) is
+the typed monitor `monitorForced` (`IceSpec/C11ForcedView.lean`; no well-formedness hypothesis). -/
+theorem C11_forced_view_roundtrip :
+    (∀ e : FEv, parseFTok (printFTok e) = some e) ∧
+    (∀ evs : List FEv, evs ≠ [] → monitorObs (printObsF evs) = monitorForced evs) :=
+  ⟨IceProofs.C11ForcedView.parseFTok_printFTok, IceProofs.C11ForcedView.monitorObs_print⟩
+
+open IceSpec.C11.Forced IceSpec.C11.Forced.View in
+-- non-vacuity: a printed observation is the protocol text
+example : printObsF [.gather 0, .offer 0 7, .result 7 (some true), .cand 0 7 0, .nil 0, .probe [7] [7, 8], .final []]
+    = "G0 a0:7 r7=ok c0:7@0 n@0 Q7/7,8 Z" := by decide
 
 end IceProps.C11
